@@ -239,7 +239,7 @@ func (p *c32Post) count() int {
 }
 
 type c32Op struct {
-	Op    string `json:"op"` // grow | sub | resub | failresub
+	Op    string `json:"op"` // grow | sub | resub | failresub | restart
 	N     int    `json:"n,omitempty"`
 	Reorg bool   `json:"reorg,omitempty"`
 	Minus bool   `json:"minusOne,omitempty"` // notify with -1, as disconnectBlock does
@@ -282,7 +282,7 @@ func c32Gen(t *rapid.T) c32Case {
 	c.Ops = append(c.Ops, c32Op{Op: "sub", Name: "a", Type: int32(rapid.IntRange(0, 1).Draw(t, "typeA")), Start: rapid.Bool().Draw(t, "startA"), At: rapid.IntRange(0, 200).Draw(t, "atA")})
 	n := rapid.IntRange(3, 8).Draw(t, "nops")
 	for i := 0; i < n; i++ {
-		switch rapid.SampledFrom([]string{"grow", "grow", "grow", "sub", "resub", "failresub"}).Draw(t, "op") {
+		switch rapid.SampledFrom([]string{"grow", "grow", "grow", "sub", "resub", "failresub", "restart", "restart"}).Draw(t, "op") {
 		case "failresub":
 			// a delivery fails, and the subscriber re-registers while the task is still backing off; the chain keeps growing
 			c.Ops = append(c.Ops, c32Op{Op: "failresub", Name: rapid.SampledFrom(names).Draw(t, "whoFR"), N: rapid.IntRange(1, 12).Draw(t, "nFR")})
@@ -291,6 +291,8 @@ func c32Gen(t *rapid.T) c32Case {
 				Big: rapid.SampledFrom([]int{0, 0, 0, 150, 300, 400, 600, 1100}).Draw(t, "bigKiB"), Flap: rapid.IntRange(0, 3).Draw(t, "flap") == 0})
 		case "sub":
 			c.Ops = append(c.Ops, c32Op{Op: "sub", Name: "b", Type: int32(rapid.IntRange(0, 1).Draw(t, "typeB")), Start: rapid.Bool().Draw(t, "startB"), At: rapid.IntRange(0, 200).Draw(t, "atB")})
+		case "restart":
+			c.Ops = append(c.Ops, c32Op{Op: "restart"}, c32Op{Op: "grow", N: rapid.IntRange(1, 6).Draw(t, "nAfterRestart")})
 		case "resub":
 			c.Ops = append(c.Ops, c32Op{Op: "resub", Name: rapid.SampledFrom(names).Draw(t, "who")})
 		}
@@ -299,15 +301,18 @@ func c32Gen(t *rapid.T) c32Case {
 	return c
 }
 
-func c32Run(t lib.TB, test string, c c32Case) (failThenOK, deactResume, resubInBackoff, sizeCut, resumeAmbiguous bool) {
+func c32Run(t lib.TB, test string, c c32Case) (failThenOK, deactResume, resubInBackoff, sizeCut, resumeAmbiguous, restarted bool) {
 	ss := &c32SeqStore{cfg: c32Cfg, blocks: map[string]*types.BlockDetail{}, sizes: map[string]int{}}
 	kv := &c32KV{m: map[string][]byte{}}
 	post := &c32Post{scripts: map[string][]bool{}}
 	for k, v := range c.Scripts {
 		post.scripts[k] = append([]bool{}, v...)
 	}
-	p := &Push{store: kv, sequenceStore: ss, tasks: map[string]*pushNotify{}, postService: post, cfg: c32Cfg, postFail2Sleep: 3, postwg: &sync.WaitGroup{}}
-	defer p.Close()
+	mkPush := func() *Push {
+		return &Push{store: kv, sequenceStore: ss, tasks: map[string]*pushNotify{}, postService: post, cfg: c32Cfg, postFail2Sleep: 3, postwg: &sync.WaitGroup{}}
+	}
+	p := mkPush()
+	defer func() { p.Close() }()
 	subs := map[string]*types.PushSubscribeReq{}
 	resume := map[string]int64{} // explicit resume point per subscriber (-1 = none)
 	settle := func() {
@@ -395,6 +400,16 @@ func c32Run(t lib.TB, test string, c c32Case) (failThenOK, deactResume, resubInB
 			p.UpdateSeq(ss.grow(2, false, 0, false))
 			time.Sleep(200 * time.Millisecond)
 			p.UpdateSeq(ss.grow(1, false, 0, false))
+		case "restart":
+			// the node restarts: the push service is closed (every task finishes its current step) and a new one is
+			// initialised over the same database, which reloads the active subscriptions
+			p.Close()
+			p = mkPush()
+			p.init()
+			if last, err := ss.LoadBlockLastSequence(); err == nil {
+				p.UpdateSeq(last)
+			}
+			restarted = true
 		case "resub":
 			if s := subs[op.Name]; s != nil {
 				if err := p.addSubscriber(s); err != nil {
@@ -477,7 +492,10 @@ func TestPropPushOrderedGapFree(t *testing.T) {
 	rapid.Check(t, func(t *rapid.T) {
 		c := c32Gen(t)
 		lib.Eval()
-		f, d, rb, sc, ra := c32Run(t, "TestPropPushOrderedGapFree", c)
+		f, d, rb, sc, ra, rs := c32Run(t, "TestPropPushOrderedGapFree", c)
+		if rs {
+			lib.Class("push_service_restarted")
+		}
 		if ra {
 			lib.Class("resume_point_block_appears_twice_in_log")
 		}
@@ -497,4 +515,21 @@ func TestPropPushOrderedGapFree(t *testing.T) {
 			lib.NonTrivialCase(c)
 		}
 	})
+}
+
+// TestRegress_C32RestartKeepsProgress: a subscriber with an explicit resume point acknowledges progress beyond it, the
+// push service restarts on the same database, the chain grows: deliveries continue after the last acknowledged sequence.
+func TestRegress_C32RestartKeepsProgress(t *testing.T) {
+	defer lib.Flush()
+	if c32Cfg == nil {
+		c32Cfg = types.NewChain33Config(types.GetDefaultCfgstring())
+	}
+	for _, typ := range []int32{0, 1} {
+		c := c32Case{Scripts: map[string][]bool{}, Ops: []c32Op{
+			{Op: "grow", N: 6}, {Op: "sub", Name: "a", Type: typ, Start: true, At: 2}, {Op: "grow", N: 7},
+			{Op: "restart"}, {Op: "grow", N: 3}, {Op: "restart"}, {Op: "grow", N: 1},
+		}}
+		lib.Eval()
+		c32Run(t, "TestRegress_C32RestartKeepsProgress", c)
+	}
 }
